@@ -150,7 +150,7 @@ func (c *C16a) Run(t *testing.T, scn any) *sim.Outcome {
 	for si := range scheds {
 		for r := 0; r < reps; r++ {
 			n++
-			o := Execute(t, w, RunSpec{Kind: "all", Dir: filepath.Join(dir, fmt.Sprintf("r%d", n)), Manifest: &w.Manifest, Opts: &opts, Sched: scheds[si], Salt: fmt.Sprintf("~r%d", n)})
+			o := Execute(t, w, RunSpec{Kind: "all", Dir: filepath.Join(dir, fmt.Sprintf("r%d", n)), Manifest: &w.Manifest, Opts: &opts, Sched: scheds[si], Salt: nextSalt()})
 			out.Executions++
 			out.Count("seam_calls", int64(o.Calls))
 			out.Count("sched_choices", int64(o.Choices))
@@ -189,7 +189,7 @@ func (c *C16a) Run(t *testing.T, scn any) *sim.Outcome {
 	// one free-running computation (no scheduler: the goroutines run as the Go runtime likes), so
 	// that the race detector also sees sharing that the one-at-a-time scheduler serialises
 	n++
-	if o := Execute(t, w, RunSpec{Kind: "all", Dir: filepath.Join(dir, fmt.Sprintf("r%d", n)), Manifest: &w.Manifest, Opts: &opts, Pass: true, Free: true, Salt: fmt.Sprintf("~r%d", n)}); !o.Over {
+	if o := Execute(t, w, RunSpec{Kind: "all", Dir: filepath.Join(dir, fmt.Sprintf("r%d", n)), Manifest: &w.Manifest, Opts: &opts, Pass: true, Free: true, Salt: nextSalt()}); !o.Over {
 		out.Executions++
 		if d := digest(o); d != ref && !bad {
 			bad = true
@@ -200,7 +200,7 @@ func (c *C16a) Run(t *testing.T, scn any) *sim.Outcome {
 	fref := ""
 	for si := 0; si < len(scheds) && si < 3; si++ {
 		n++
-		o := Execute(t, w, RunSpec{Kind: "fix", Dir: filepath.Join(dir, fmt.Sprintf("r%d", n)), Manifest: &w.Manifest, Opts: &opts, Sched: scheds[si], Salt: fmt.Sprintf("~r%d", n)})
+		o := Execute(t, w, RunSpec{Kind: "fix", Dir: filepath.Join(dir, fmt.Sprintf("r%d", n)), Manifest: &w.Manifest, Opts: &opts, Sched: scheds[si], Salt: nextSalt()})
 		out.Executions++
 		if o.Over || o.Deadlock || o.Panic != "" {
 			break
@@ -217,6 +217,10 @@ func (c *C16a) Run(t *testing.T, scn any) *sim.Outcome {
 	for _, rr := range c.rw.Poll() {
 		out.Violate("data-race", "data-race:"+rr.Key, "race detector report while running the patch computation:\n%s", rr.Text)
 		out.NoShrink = true
+	}
+	if os.Getenv("REMED_TRACE") != "" {
+		b, _ := json.Marshal(sc.W)
+		fmt.Fprintf(os.Stderr, "REMED_TRACE_WORLD %s\n", b)
 	}
 	out.HistoryFP = sim.FP([]any{fps, ref})
 	out.Count("schedules", int64(len(scheds)))
@@ -235,4 +239,13 @@ func sortStrings(s []string) {
 			s[j], s[j-1] = s[j-1], s[j]
 		}
 	}
+}
+
+var saltSeq int
+
+// nextSalt returns an id suffix that is unique within the process: ids are labels, results do not
+// depend on them, but state a (mutated) library keeps per advisory id must not survive a run.
+func nextSalt() string {
+	saltSeq++
+	return fmt.Sprintf("~%d", saltSeq)
 }
